@@ -150,6 +150,25 @@ def node_timeout(src, fn, fname):
     return bool(calls) and all(c.split(",")[-1].strip() == t for c in calls)
 
 
+def guards(src, fleet_src, fname):
+    """What the constructors refuse, so that the hypotheses of the theorems hold for every fleet that
+    exists: `max_attempts >= 1`, node names distinct at construction and at `add_node`. A guard that is
+    not found in a known form is reported as absent (pessimistic: the theorem about the guards breaks
+    and the `opts` cases of the harness say whether the constructor still refuses)."""
+    vf = " ".join(fn_body(fleet_src, "validate_fleet_options").split())
+    validates = bool(re.search(r"if \w+\.retry_policy\.max_attempts (?:< 1|== 0|<= 0) \{ return Err\(", vf))
+    wo = " ".join(fn_body(src, "with_options").split())
+    ok_at = wo.find("Ok(Self")
+    call_at = wo.find("validate_fleet_options(&options)?;")
+    max_ok = validates and 0 <= call_at < ok_at
+    ins = re.search(r"if !(\w+)\.insert\(config\.name\.clone\(\)\) \{ return Err\(", wo)
+    distinct_new = bool(ins) and 0 <= ins.start() < ok_at and bool(re.search(r"let mut " + (ins.group(1) if ins else "names") + r" = HashSet::new\(\);", wo))
+    an = " ".join(fn_body(src, "add_node").split())
+    ck = re.search(r"if (\w+)\.contains_key\(&config\.name\) \{ return Err\(", an)
+    distinct_add = bool(ck) and ck.start() < an.find(".insert(")
+    return {"maxAttemptsValidated": max_ok, "namesDistinctAtConstruction": distinct_new, "namesDistinctAtAdd": distinct_add}
+
+
 def extract():
     facts = {}
     facts["deadKinds"] = dead_kinds("src/client.rs")
@@ -170,6 +189,8 @@ def extract():
         facts[nm("nodeTimeout")] = node_timeout(src, "call_json_with_retry", path) and node_timeout(src, "call_message_with_retry", path)
         facts[nm("filter")] = filter_form(src, path)
         facts[nm("fanOutOverTargets")] = fan_out(src, path)
+        for gk, gv in guards(src, test_mod_cut(strip(read("src/fleet.rs"))), path).items():
+            facts[nm(gk)] = gv
         facts.setdefault("where", {})[path] = {"is_retryable_error": line_of(raw, "fn is_retryable_error"),
                                                 "call_json_with_retry": line_of(raw, "fn call_json_with_retry"),
                                                 "call_message_with_retry": line_of(raw, "fn call_message_with_retry"),
@@ -203,6 +224,12 @@ def render(f):
          f"def asyncFilter : FilterForm := .{f['asyncFilter']}",
          f"def fanOutOverTargets : Bool := {b(f['fanOutOverTargets'])}",
          f"def asyncFanOutOverTargets : Bool := {b(f['asyncFanOutOverTargets'])}",
+         f"def maxAttemptsValidated : Bool := {b(f['maxAttemptsValidated'])}",
+         f"def asyncMaxAttemptsValidated : Bool := {b(f['asyncMaxAttemptsValidated'])}",
+         f"def namesDistinctAtConstruction : Bool := {b(f['namesDistinctAtConstruction'])}",
+         f"def asyncNamesDistinctAtConstruction : Bool := {b(f['asyncNamesDistinctAtConstruction'])}",
+         f"def namesDistinctAtAdd : Bool := {b(f['namesDistinctAtAdd'])}",
+         f"def asyncNamesDistinctAtAdd : Bool := {b(f['asyncNamesDistinctAtAdd'])}",
          f"def deadKinds : List IoKind := {kinds(f['deadKinds'])}",
          f"def asyncDeadKinds : List IoKind := {kinds(f['asyncDeadKinds'])}",
          "def refusalKind : Option IoKind := " + ("none" if f['refusalKind'] is None else f"some .{KINDS[f['refusalKind']]}"),
